@@ -20,6 +20,7 @@ FixedDevs == {
     "avail_samefile_first",     \* resolver.rs:500  completion view: first same-file def, not last  (fixed fe369e3)
     "avail_conftest_first",     \* resolver.rs:516  completion view: first conftest def, not last   (fixed fe369e3)
     "rff_samefile_first",       \* resolver.rs:1702 outgoing-calls resolver: first same-file def    (fixed d5a9bd4)
+    "avail_requires_cache",     \* resolver.rs:529  completion view consulted imports only if conftest is in file_cache (fixed a7d180e)
     "version_only_on_add"       \* mod.rs:155 / analyzer.rs:273 version bumped only when a def is recorded (fixed e7e7c04)
 }
 
@@ -27,7 +28,6 @@ AllDevs == {
     "imp_first_registered",     \* resolver.rs:241  imported name -> first registered def anywhere
     "explicit_any_fixture_name",\* imports.rs:522   `from m import n` counts if ANY fixture is called n
     "avail_imported_first",     \* resolver.rs:537  completion view: imported name -> defs[n].first()
-    "avail_requires_cache",     \* resolver.rs:529  completion view consults imports only if conftest is in file_cache
     "rff_ignores_imports",      \* resolver.rs:1706 outgoing-calls resolver never consults conftest imports
     "rff_fallback_any",         \* resolver.rs:1750 outgoing-calls resolver falls back to any definition
     "rff_no_self_exclusion",    \* call_hierarchy.rs:189 `def n(n)`: outgoing call of n resolves to n itself
@@ -52,6 +52,7 @@ EmptyIndex(names, disk) ==
       usages  |-> [f \in Files |-> <<>>],        \* usages: file -> Vec<Usage>
       ubf     |-> [n \in names |-> <<>>],        \* usage_by_fixture
       cached  |-> [f \in Files |-> NoMod],       \* file_cache (text last handed to analysis)
+      lastOk  |-> [f \in Files |-> NoMod],       \* ghost: text of the last SUCCESSFUL analysis (repaired branches only)
       disk    |-> disk,                          \* what std::fs would read (constant in a behaviour)
       plugins |-> {},                            \* plugin_fixture_files
       version |-> 0,                             \* definitions_version
@@ -97,7 +98,7 @@ WalkItems(ix, f, its, i) ==
 AnalyzeFnD(ix, D, f, m, cleanup) ==
     LET ix0 == [ix EXCEPT !.cached[f] = m]
     IN  IF ~m.valid THEN ix0                                  \* parse failure: keep everything else
-        ELSE LET ix1 == [ix0 EXCEPT !.usages[f] = <<>>,
+        ELSE LET ix1 == [ix0 EXCEPT !.lastOk[f] = m, !.usages[f] = <<>>,
                                     !.ubf = [n \in DOMAIN @ |-> SelectFile(@[n], f)]]
                  ix2 == IF cleanup
                         THEN [ix1 EXCEPT !.defs = [n \in DOMAIN @ |->
@@ -122,7 +123,15 @@ ContentOf(ix, f) == IF ix.cached[f] # NoMod THEN ix.cached[f] ELSE ix.disk[f]
 Known(ix, f) == f # NoFile /\ (ix.cached[f] # NoMod \/ ix.disk[f] # NoMod)
 
 (* the workspace as the index currently sees it (for the repaired branches) *)
-SeenWs(ix) == [f \in Files |-> LET c == ContentOf(ix, f) IN IF c = NoMod THEN Absent ELSE c]
+SeenWs(ix) == [f \in Files |-> LET c == ContentOf(ix, f) IN
+                                IF c = NoMod THEN Absent
+                                ELSE IF c.valid \/ ix.lastOk[f] = NoMod THEN c ELSE ix.lastOk[f]]
+\* the text whose imports get_imported_fixtures reads: the code re-parses the CURRENT text, which
+\* yields nothing while it is unparsable (deviation); the repaired design keeps the last valid one
+EffContent(ix, D, f) ==
+    LET c == ContentOf(ix, f) IN
+    IF "reexport_from_current_text" \in D \/ c = NoMod THEN c
+    ELSE IF c.valid \/ ix.lastOk[f] = NoMod THEN c ELSE ix.lastOk[f]
 
 (***************************************************************************)
 (* get_imported_fixtures (imports.rs:414-560).  `visited` is ONE mutable   *)
@@ -136,7 +145,7 @@ RECURSIVE ImpRec(_, _, _, _, _), ImpItems(_, _, _, _, _, _, _)
 ImpRec(ix, D, memo, visited, f) ==
     IF f \in visited THEN [set |-> {}, visited |-> visited, memo |-> memo, cut |-> TRUE]
     ELSE LET vis1 == visited \cup {f}
-             content == ContentOf(ix, f)
+             content == EffContent(ix, D, f)
          IN  IF content = NoMod THEN [set |-> {}, visited |-> vis1, memo |-> memo, cut |-> FALSE]
              ELSE IF memo[f].ver = ix.version /\ memo[f].mod = content
                   THEN [set |-> memo[f].val, visited |-> vis1, memo |-> memo, cut |-> FALSE]
